@@ -339,6 +339,9 @@ func parseRule(str string) rule {
 				if strings.Contains(values, "=") || !strings.ContainsAny(values, ", ") {
 					values = strings.Trim(values, "()\n")
 				}
+				if strings.Contains(values, "=") {
+					values = blankAfterCommas(values) // peer=(name=a,label=b)
+				}
 				res = append(res, kv{key: key, values: parseRule(values)})
 			} else {
 				res = append(res, kv{key: key})
@@ -378,6 +381,28 @@ func parseRule(str string) rule {
 		}
 	}
 	return res
+}
+
+// blankAfterCommas puts a blank after the commas that separate the conditions
+// of a list, so that they are split like conditions separated by ", ".
+func blankAfterCommas(str string) string {
+	var res strings.Builder
+	quoted, depth := false, 0
+	for _, r := range str {
+		res.WriteRune(r)
+		switch {
+		case r == '"':
+			quoted = !quoted
+		case quoted:
+		case slices.Contains(openBlocks, r):
+			depth++
+		case slices.Contains(closeBlocks, r):
+			depth--
+		case r == ',' && depth == 0:
+			res.WriteRune(' ')
+		}
+	}
+	return res.String()
 }
 
 // Intermediate token for the representation of a rule. All comma and line
